@@ -260,6 +260,31 @@ func runC09(p *engine.Prog, r *engine.Report) {
 			r.Check(ok, "R9.2-ack-after-save", ck, "return at "+engine.FuncName(up)+" ("+p.Rel(ret.Pos())+")", "a nil result is the (wrapped) result of the save", why)
 		}
 		// in-memory assignment is replaced before saving (what is saved is the new assignment)
+		{
+			fTargetsInfoTargets := p.Field(pkgSide, "TargetsInfo", "Targets")
+			fReqTargets := p.Field(pkgShard, "UpdateTargetsRequest", "Targets")
+			var inst *ssa.Store
+			for _, in := range allInstrs(up) {
+				if st, ok := in.(*ssa.Store); ok {
+					if fa, ok := st.Addr.(*ssa.FieldAddr); ok && engine.FieldOf(fa) == fTargetsInfoTargets {
+						if _, ok := loadOfField(st.Val, fReqTargets); ok {
+							inst = st
+						}
+					}
+				}
+			}
+			var probs []string
+			if inst == nil {
+				probs = append(probs, "the requested assignment is never installed as the manager's current assignment")
+			} else {
+				for _, in := range allInstrs(up) {
+					if call, ok := in.(*ssa.Call); ok && call.Call.StaticCallee() != nil && isSaver(call.Call.StaticCallee()) && !engine.InstrDominates(inst, call) {
+						probs = append(probs, "the store is saved before the requested assignment is installed (the previous assignment would be persisted and acknowledged)")
+					}
+				}
+			}
+			r.Check(len(probs) == 0, "R9.2-ack-after-save", "UpdateTargets installs the request", engine.FuncName(up), "t.targets.Targets = req.Targets precedes the save", strings.Join(probs, "; "))
+		}
 	}
 	// HTTP handler
 	nH := 0
